@@ -4,6 +4,7 @@ import VlsModel.Gen.FnEnforceVal
 import VlsModel.Gen.FnSimpleClose
 import VlsModel.Gen.FnChannelClose
 import VlsModel.Gen.FnCloseDecode
+import VlsModel.Gen.FnB3TxUtilClose
 import VlsModel.Lemmas.FnGen
 /-
 C07 — the epsilon comparisons of the mutual-close model (`MutualClose.outsideEps`, `minToHolder`,
@@ -634,5 +635,42 @@ example : dRun ⟨[⟨1997000, 3⟩, ⟨1000000, 20⟩]⟩ [5, 9] = .ok (1997000
 example : dRun ⟨[⟨1000000, 20⟩, ⟨1997000, 3⟩]⟩ [9, 5] = .ok (1997000, 1000000, 3, 20, 7) := by rfl
 example : dRun ⟨[]⟩ [] = .error .panic := by rfl
 end DecodeEx
+
+/-! ### Round 10 (b3): `mutual_close_tx_weight` (`Gen.FnB3TxUtilClose`, `util/transaction_utils.rs`)
+
+The weight that enters `policy-mutual-fee-range`: rust-bitcoin's weight of the unsigned transaction (external `txw`)
+**plus** the expected witness weight — the constant expression `2 + 1 + 4 + 72 + 72 + 1 + 1 + 33 + 1 + 33 + 1 + 1` of the
+source, folded by the translator.  `validate_mutual_close_tx` takes this weight as the external `ext_let_weight`
+(`C07_fn_validate_mutual_close_tx`); here is what that external is. -/
+
+/-- the unsigned closing transaction of the model: version, locktime, input count, one input of 41 bytes, output count,
+    the non-zero outputs; no witness, so weight = 4 × size -/
+def unsignedCloseWeight (a : Args) : Nat :=
+  4 * (4 + 1 + 41 + 1 + ((if a.toCounterparty > 0 then outSize a.cpScript else 0)
+                          + (if a.toHolder > 0 then outSize a.holderScript else 0)) + 4)
+
+/-- for every transaction and every weight function: the sum with the generated constant of `x_policy.py`
+    (`Gen.Policy.mutualCloseWitnessWeight`; two extractors agree), overflow-checked in `usize` -/
+theorem C07_fn_mutual_close_tx_weight {T : Type} (txw : T → Nat) (tx : T) :
+    Gen.FnB3TxUtilClose.mutual_close_tx_weight txw tx
+      = if txw tx + Gen.Policy.mutualCloseWitnessWeight ≤ Rs.USIZE_MAX
+        then .ok (txw tx + Gen.Policy.mutualCloseWitnessWeight) else .error .overflow := by
+  unfold Gen.FnB3TxUtilClose.mutual_close_tx_weight Rs.uadd Gen.Policy.mutualCloseWitnessWeight
+  by_cases h : txw tx + 222 ≤ Rs.USIZE_MAX <;> simp [h, Rs.overflow, bind, Except.bind, pure, Except.pure]
+
+/-- … hence the model's `closeWeight`, whenever rust-bitcoin's weight of the built closing transaction is the model's
+    unsigned weight (that identity is validated by the correspondence groups, which run `ClosingTransaction::new`);
+    the sum cannot overflow for scripts of any length a `u64` weight admits -/
+theorem C07_fn_mutual_close_tx_weight_model {T : Type} (txw : T → Nat) (tx : T) (a : Args)
+    (hw : txw tx = unsignedCloseWeight a) (hfit : closeWeight a ≤ Rs.USIZE_MAX) :
+    Gen.FnB3TxUtilClose.mutual_close_tx_weight txw tx = .ok (closeWeight a) := by
+  have e : txw tx + Gen.Policy.mutualCloseWitnessWeight = closeWeight a := by
+    rw [hw]; rfl
+  rw [C07_fn_mutual_close_tx_weight, e, if_pos hfit]
+
+example : Gen.FnB3TxUtilClose.mutual_close_tx_weight (fun (_ : Unit) => 496) () = .ok 718 := by
+  rw [C07_fn_mutual_close_tx_weight]; rfl
+example : closeWeight ⟨1000, 2000, some ⟨1000, 1, 22, 1, true, false⟩, some ⟨2000, 2, 22, 2, false, false⟩⟩
+    = 4 * (4 + 1 + 41 + 1 + 31 + 31 + 4) + 222 := by rfl
 
 end VlsModel.Props.C07Fn
